@@ -612,7 +612,10 @@ func (fr *Framer) checkFrameOrder(fh FrameHeader) error {
 	}
 
 	switch fh.Type {
-	case FrameHeaders, FrameContinuation:
+	case FrameHeaders, FrameContinuation, FramePushPromise:
+		// A PUSH_PROMISE without END_HEADERS also opens a field block that
+		// must be continued by CONTINUATION frames on the same stream.
+		// The END_HEADERS flag has the same value for all three frame types.
 		if fh.Flags.Has(FlagHeadersEndHeaders) {
 			fr.lastHeaderStream = 0
 		} else {
